@@ -4,6 +4,7 @@ import VarproModel.Drv.SepModel
 import VarproModel.Drv.State
 import VarproModel.Drv.Fit
 import VarproModel.Drv.Stats
+import VarproModel.Drv.ShapeDrv
 /-!
 # driver — reads a case file (line protocol), runs the executable model on every case and
 prints one verdict line per case.  Imports only `Core/` and `Drv/` (no Mathlib), so it links.
@@ -21,6 +22,7 @@ def dispatch (focus : String) (c : Case) : String :=
   | "conv" => handleConv focus c
   | "mc" => handleMc focus c
   | "stats" => handleStats focus c
+  | "shape" => handleShape c
   | k => s!"corr=INTERNAL(unknown-kind-{k}) mon=ok nontrivial=0 tag=none"
 
 partial def loop (focus : String) (h : IO.FS.Stream) (cur : Option Case) : IO Unit := do
